@@ -438,6 +438,15 @@ def r4_run_if(report, repo):
       return None if ok else 'run_if-false-row: must return a SKIP outcome'
     if len(ctx) != 1:
       return 'run-row: running_phase_context entered %d times' % len(ctx)
+    started = p.calls(attr='start')
+    if started:
+      res = [n for n, _ in p.steps if n.kind == 'stmt' and isinstance(
+          n.ast, ast.Assign) and (dotted(n.ast.targets[0]) or '').endswith(
+              '.result') and isinstance(n.ast.value, ast.Call) and
+             last_attr(n.ast.value) == 'join_or_die']
+      if len(res) != 1:
+        return ('run-row: the result of the started phase thread '
+                '(join_or_die) is not stored in the phase state exactly once')
     return None
 
   lib.decision_table(report, rule, f, ['has_run_if', 'run_phase'], classify,
@@ -463,6 +472,7 @@ def r4_run_if(report, repo):
         g.dominated_by_edge(x, lambda s, l, d: s.kind == 'test' and l == 'T' and
                             core.is_name(s.ast, 'is_last_repeat'))
         for x in nodes)
+    ok = ok and isinstance(h.value, ast.Constant) and h.value.value is True
     report.check(ok, rule5, f.qualname, 'hit_repeat_limit-guard', h,
                  'hit_repeat_limit set only for a REPEAT result on the last '
                  'allowed invocation')
